@@ -711,6 +711,7 @@ LITERAL_TABLE = [
     ('BYTE', 'BYTE#16#FF', ('bits', 255)), ('WORD', 'WORD#2#1010', ('bits', 10)), ('BYTE', 'BYTE#255', ('bits', 255)), ('DWORD', 'DWORD#8#17', ('bits', 15)), ('LWORD', 'LWORD#16#FFFF_FFFF', ('bits', 4294967295)),
     ('BOOL', 'BOOL#1', ('bool', True)), ('BOOL', 'BOOL#0', ('bool', False)), ('BOOL', 'BOOL#TRUE', ('bool', True)), ('BOOL', 'BOOL#FALSE', ('bool', False)), ('BOOL', 'TRUE', ('bool', True)), ('BOOL', 'FALSE', ('bool', False)),
     ('TIME', 'T#-1s', ('dur', -_ns(s=1))), ('TIME', 't#5ms', ('dur', _ns(ms=5))), ('TIME', 'T#1.5h', ('dur', _ns(m=90))), ('TIME', 'T#25h', ('dur', _ns(h=25))), ('TIME', 'T#90m', ('dur', _ns(m=90))), ('TIME', 'TIME#2d', ('dur', _ns(d=2))), ('TIME', 'T#-1.5s', ('dur', -_ns(ms=1500))),
+    ('TIME', 'T#+5s', ('reject',)), ('TIME', 'TIME#+1.5h', ('reject',)),       # B.1.2.3.1: the only sign a duration takes is '-'
     ('TIME', 'T#1h2m3s4ms', ('dur', _ns(h=1, m=2, s=3, ms=4))), ('TIME', 'T#1d2h', ('dur', _ns(d=1, h=2))), ('TIME', 'TIME#1m30s', ('dur', _ns(m=1, s=30))), ('TIME', 'T#1h_30m', ('dur', _ns(h=1, m=30))),
     ('DATE', 'D#2020-02-29', ('date', (2020, 2, 29))), ('DATE', 'D#2021-02-29', ('reject',)), ('DATE', 'D#2020-13-01', ('reject',)), ('DATE', 'D#2020-04-31', ('reject',)), ('DATE', 'DATE#1999-12-31', ('date', (1999, 12, 31))),
     ('DATE', 'D#2000-02-29', ('date', (2000, 2, 29))), ('DATE', 'D#1900-02-29', ('reject',)), ('DATE', 'D#2020-00-10', ('reject',)), ('DATE', 'D#2020-01-00', ('reject',)),
